@@ -196,6 +196,48 @@ def parse_build_amounts(ctx, cls, rule="C01.R3"):
     return n
 
 
+INIT_DERIVED = {
+    ("Enum", "encmapping"): "label table (inverse pair checked by C13.R4)", ("Enum", "decmapping"): "label table (C13.R4)", ("Enum", "ksymapping"): "export table (C19.R2)",
+    ("FlagsEnum", "reverseflags"): "inverse of the flags mapping", ("Mapping", "decmapping"): "inverse of the given mapping (C13.R4)",
+    ("Struct", "subcons"): "member list (C03.R3)", ("Struct", "_subcons"): "name index of the member list", ("Struct", "flagbuildnone"): "derived flag",
+    ("Sequence", "subcons"): "member list (C03.R3)", ("Sequence", "_subcons"): "name index", ("Sequence", "flagbuildnone"): "derived flag",
+    ("FocusedSeq", "subcons"): "member list (C03.R3)", ("FocusedSeq", "_subcons"): "name index",
+    ("Union", "subcons"): "member list (C03.R3)", ("Union", "_subcons"): "name index",
+    ("Select", "subcons"): "member list", ("Select", "flagbuildnone"): "derived flag",
+    ("LazyStruct", "subcons"): "member list (C03.R3)", ("LazyStruct", "_subcons"): "name index", ("LazyStruct", "_subconsindexes"): "index table (C16.R3)", ("LazyStruct", "flagbuildnone"): "derived flag",
+    ("Renamed", "name"): "new name or the wrapped construct's", ("Renamed", "docs"): "new docs or the wrapped construct's", ("Renamed", "parsed"): "new hook or the wrapped construct's",
+    ("IfThenElse", "flagbuildnone"): "derived flag", ("Switch", "default"): "Pass when no default is given", ("Switch", "flagbuildnone"): "derived flag",
+    ("Compressed", "lib"): "codec module selected by the encoding name", ("CompressedLZ4", "lib"): "codec module",
+    ("Rebuffered", "stream2"): "documented experimental",
+    ("Subconstruct", "flagbuildnone"): "inherited from the wrapped construct", ("FormatField", "fmtstr"): "byte-order character + format code (C03.R1)",
+    ("FormatField", "length"): "struct.calcsize of the format (C01.R4)", ("NamedTuple", "factory"): "collections.namedtuple built from the given names",
+    ("ExprAdapter", "_decode"): "adapter lambdas wrapping the given functions", ("ExprAdapter", "_encode"): "adapter lambdas", ("ExprValidator", "_validate"): "validator lambda",
+}
+
+
+def init_store_checks(ctx, rule, only=None):
+    """Constructor parameters are stored as given: every attribute written by a construct's __init__ is a parameter, a constant, or one of the
+    derived tables listed in INIT_DERIVED.  A 'normalisation' of a layout parameter at construction time (stripping, rounding, defaulting a
+    falsy value) changes the format for some parameter values while _parse and _build still agree with each other."""
+    M = ctx.model
+    n = 0
+    for ci in M.construct_classes():
+        if "__init__" not in ci.methods or ci.relpath.endswith("debug.py") or (only is not None and ci.name not in only):
+            continue
+        fi = M.method(ci.name, "__init__")
+        seen = {}
+        for p in paths_of(ctx, fi, ci.name):
+            for e in p.events:
+                if e.kind == "SELFWRITE" and e["base"] == SELF and isinstance(e["attr"], str) and not e.depth:
+                    v = e["value"]
+                    plain = v[0] == "param" or N.is_const(v) or (v[0] == "free")
+                    seen[e["attr"]] = seen.get(e["attr"], True) and (plain or (ci.name, e["attr"]) in INIT_DERIVED)
+        for attr, ok in sorted(seen.items()):
+            n += 1
+            ctx.ob(rule, fi, ok, "%s.__init__ stores %s exactly as given (or as a documented derived table)" % (ci.name, attr), key="init %s" % attr, detail=INIT_DERIVED.get((ci.name, attr)))
+    return n
+
+
 def tunnel_checks(ctx, rule):
     M = ctx.model
     # Tunnel
@@ -279,7 +321,8 @@ def run(ctx):
                     fro = any((c, x) in ONE_SIDED for x in attrs) or (c, k) in ONE_SIDED
                     reason = next((ONE_SIDED[(c, x)] for x in attrs + [k] if (c, x) in ONE_SIDED), None)
                     ctx.ob("C01.R1", fa if k in pa else fb, fro, "%s: parameter `%s` is consulted only by %s" % (c, k, side), key="%s %s one-sided %s" % (c, k, side), detail=reason)
-    ctx.floor("C01.R1", 60)
+    init_store_checks(ctx, "C01.R1")
+    ctx.floor("C01.R1", 60 + 100)
 
     # ---------------------------------------------------------------- R2
     n2 = 0
